@@ -188,13 +188,13 @@ pub fn generate(a: &Args) {
         all_graphs(&mut out, 3, 4, 1);
         all_graphs(&mut out, 4, 3, 1);
         all_graphs(&mut out, 2, 5, 1);
-        all_graphs(&mut out, 4, 4, 7); // every 7th 4x4 graph
+        all_graphs(&mut out, 4, 4, 3); // every 3rd 4x4 graph
     } else {
         all_graphs(&mut out, 3, 3, 1);
         all_graphs(&mut out, 2, 4, 1);
         all_graphs(&mut out, 3, 4, 11);
     }
-    let nrand = if is_thorough(a) { 3000 } else { 400 };
+    let nrand = if is_thorough(a) { 8000 } else { 400 };
     for i in 0..nrand {
         let (rows, nc) = random_graph(&mut rng, i);
         let nr = rows.len();
